@@ -72,6 +72,9 @@ type Violation struct {
 }
 
 type Interp struct {
+	race     raceState
+	curFrame *frame
+	curPos   token.Pos
 	prog    *ssa.Program
 	tt      *TermTable
 	solver  *Solver
@@ -666,6 +669,12 @@ func (in *Interp) runFrame(fr *frame) {
 					fmt.Fprintf(os.Stderr, "[%s] %s\n", fr.fn.Name(), instr)
 				}
 			}
+			if in.race.on {
+				in.curFrame = fr
+				if p := instr.Pos(); p != token.NoPos {
+					in.curPos = p
+				}
+			}
 			if in.visitInstr(fr, instr) == kReturn {
 				return
 			}
@@ -736,6 +745,9 @@ func (in *Interp) loadPtr(T types.Type, p value) value {
 		if p == nil {
 			panic(runtimePanic{"invalid memory address or nil pointer dereference"})
 		}
+		if in.race.on {
+			in.raceRead(p)
+		}
 		return copyVal(*p)
 	case symElemPtr:
 		// ite-chain for scalars, fork otherwise
@@ -759,6 +771,9 @@ func (in *Interp) storePtr(T types.Type, p value, v value) {
 	case *value:
 		if p == nil {
 			panic(runtimePanic{"invalid memory address or nil pointer dereference"})
+		}
+		if in.race.on {
+			in.raceWrite(p)
 		}
 		assign(p, v)
 		return
